@@ -48,10 +48,11 @@ def handler_order(ctx: Ctx, chk) -> None:
     rule = "HANDLER-ORDER"
     chk.rule(rule, "the FileNotFoundError handler precedes the broader OSError clause (otherwise it is dead code) and leads to save(): a missing file is created, not an error")
     eea = ctx.eea()
-    load = ctx.func(LOAD)
+    load_raw = ctx.func(LOAD)
+    load = ctx.inl(load_raw)
     from ..interp import Frame
 
-    fr = Frame(ctx.I.make_callee(load, load.cls), None)
+    fr = Frame(ctx.I.make_callee(load_raw, load_raw.cls), None)
     tries = [n for n in ctx.own_nodes(load) if isinstance(n, ast.Try)]
     found = False
     for t in tries:
@@ -81,10 +82,11 @@ def handler_order(ctx: Ctx, chk) -> None:
 def empty1(ctx: Ctx, chk) -> None:
     rule = "EMPTY-1"
     chk.rule(rule, "an empty file loads as an empty registry: the text handed to the JSON parser is `read or \"{}\"`")
-    load = ctx.func(LOAD)
+    load_raw = ctx.func(LOAD)
+    load = ctx.inl(load_raw)  # reading / parsing may be extracted into a private helper
     from .common import callee_names
 
-    calls = [n for n in ctx.own_nodes(load) if isinstance(n, ast.Call) and "json.loads" in callee_names(ctx, load, n)]
+    calls = [n for n in ctx.own_nodes(load) if isinstance(n, ast.Call) and "json.loads" in callee_names(ctx, load_raw, n)]
     if len(calls) != 1:
         raise AnalysisError(f"EMPTY-1: expected one json.loads call in Persistence.load, found {len(calls)}")
     c = calls[0]
